@@ -95,6 +95,13 @@ pub fn check_toposort(g: &G, requested: u16, stats: &mut Stats) -> Vec<Failure> 
         Ok(r) => r,
         Err(p) => return vec![Failure::new("panic").tag("routine=toposort").observed(p).expected("an ordering").case(case)],
     };
+    verify_order(g, requested, &res, "routine=toposort", &case)
+}
+
+/// `res` must hold each requested type and each transitive dependency exactly once, with every
+/// dependency before its dependents unless the two lie on a common cycle
+fn verify_order(g: &G, requested: u16, res: &[String], routine: &str, case: &Value) -> Vec<Failure> {
+    let edges = g.edges();
     let clo = g.closure();
     let mut expect_set: u16 = requested;
     for i in 0..g.n {
@@ -107,14 +114,14 @@ pub fn check_toposort(g: &G, requested: u16, stats: &mut Stats) -> Vec<Failure> 
     let observed = format!("{:?}", res);
     for (i, n) in res.iter().enumerate() {
         if pos.insert(n.clone(), i).is_some() {
-            fails.push(Failure::new("duplicate_in_order").tag("routine=toposort").observed(observed.clone()).expected("each type exactly once").case(case.clone()));
+            fails.push(Failure::new("duplicate_in_order").tag(routine).observed(observed.clone()).expected("each type exactly once").case(case.clone()));
             return fails;
         }
     }
     let got_set: u16 = (0..g.n).filter(|i| pos.contains_key(&name(*i))).fold(0, |a, i| a | 1 << i);
     if got_set != expect_set || pos.len() != expect_set.count_ones() as usize {
         let exp: Vec<String> = (0..g.n).filter(|i| expect_set >> i & 1 == 1).map(name).collect();
-        fails.push(Failure::new("wrong_member_set").tag("routine=toposort").observed(observed.clone()).expected(format!("exactly {:?} (requested plus transitive dependencies)", exp)).case(case.clone()));
+        fails.push(Failure::new("wrong_member_set").tag(routine).observed(observed.clone()).expected(format!("exactly {:?} (requested plus transitive dependencies)", exp)).case(case.clone()));
         return fails;
     }
     for (u, v) in edges {
@@ -129,13 +136,60 @@ pub fn check_toposort(g: &G, requested: u16, stats: &mut Stats) -> Vec<Failure> 
             if pv > pu {
                 fails.push(
                     Failure::new("dependency_after_dependent")
-                        .tag("routine=toposort")
+                        .tag(routine)
                         .observed(observed.clone())
                         .expected(format!("{} before {} ({} depends on it, no common cycle)", name(v), name(u), name(u)))
                         .case(case.clone()),
                 );
                 return fails;
             }
+        }
+    }
+    fails
+}
+
+/// The routine as the generators reach it: `CommandAnalyzer::topological_sort_types` after a real
+/// analysis. The graph becomes a project (one serde struct per node, one `Vec<Tj>` field per
+/// edge, one command mentioning every type so that all of them are resolved); every non-empty
+/// requested subset is then sorted through the analyzer.
+pub fn check_analyzer(g: &G, stats: &mut Stats) -> Vec<Failure> {
+    let mut src = String::from("use serde::{Deserialize, Serialize};\n\n");
+    for u in 0..g.n {
+        src.push_str(&format!("#[derive(Serialize, Deserialize)]\npub struct {} {{\n    pub id: u32,\n", name(u)));
+        for v in 0..g.n {
+            if g.adj[u] >> v & 1 == 1 {
+                src.push_str(&format!("    pub to_{}: Vec<{}>,\n", v, name(v)));
+            }
+        }
+        src.push_str("}\n\n");
+    }
+    let params: Vec<String> = (0..g.n).map(|i| format!("p{}: {}", i, name(i))).collect();
+    src.push_str(&format!("#[tauri::command]\npub fn root({}) {{}}\n", params.join(", ")));
+    let dir = crate::tool::fresh_dir("c20a");
+    crate::tool::write_project(&dir, &[("src/lib.rs".to_string(), src.clone())]);
+    let mut analyzer = tauri_typegen::analysis::CommandAnalyzer::new();
+    let analysed = guarded(|| analyzer.analyze_project(dir.to_str().unwrap_or(".")).map(|c| c.len()).map_err(|e| e.to_string()));
+    let _ = std::fs::remove_dir_all(&dir);
+    let case0 = json!({"routine": "CommandAnalyzer::topological_sort_types", "graph": g.to_json(), "rust": src});
+    match analysed {
+        Ok(Ok(1)) => {}
+        other => return vec![Failure::new("tool_error").tag("routine=analyzer").observed(format!("{:?}", other)).expected("the project is analysed (one command)").case(case0)],
+    }
+    let mut fails = vec![];
+    for requested in 1..(1u32 << g.n) as u16 {
+        stats.eval();
+        if g.edges().iter().any(|(u, v)| u != v) {
+            stats.nontrivial(&("analyzer", g, requested));
+        }
+        let req: HashSet<String> = (0..g.n).filter(|i| requested >> i & 1 == 1).map(name).collect();
+        let case = json!({"routine": "CommandAnalyzer::topological_sort_types", "graph": g.to_json(), "requested": req.iter().cloned().collect::<std::collections::BTreeSet<_>>(), "rust": src});
+        let res = match guarded(|| analyzer.topological_sort_types(&req)) {
+            Ok(r) => r,
+            Err(p) => return vec![Failure::new("panic").tag("routine=analyzer").observed(p).expected("an ordering").case(case)],
+        };
+        fails.extend(verify_order(g, requested, &res, "routine=analyzer", &case));
+        if !fails.is_empty() {
+            break;
         }
     }
     fails
@@ -203,6 +257,15 @@ pub fn check_resolver(g: &G, isolated: u16, stats: &mut Stats) -> Vec<Failure> {
     }
 }
 
+/// digraph on n <= 4 labelled nodes from an adjacency bit matrix (row-major, n bits per row)
+fn graph_of(n: usize, bits: u32) -> G {
+    let mut adj = vec![0u16; n];
+    for u in 0..n {
+        adj[u] = ((bits >> (n * u)) & ((1 << n) - 1)) as u16;
+    }
+    G { n, adj, multi: vec![] }
+}
+
 fn random_graph(t: &mut Tape) -> (G, u16, u16) {
     let n = t.range(5, 12);
     let density = t.range(1, 6);
@@ -247,7 +310,7 @@ pub fn run(ctx: &Ctx) {
     silence_stderr();
     let reps = ctx.tier.pick(2u32, 16u32);
     ctx.set_rule(&format!(
-        "all 65536 digraphs on 4 labelled nodes (self-loops included) x all 15 non-empty requested subsets for topological_sort_types, x all 16 isolated-node subsets for resolve_build_order, each x {} evaluations with freshly built hash collections; plus random graphs of 5..12 nodes (with multi-edges for the resolver); non-trivial = at least one edge between distinct nodes, distinct by (routine, graph, subset)",
+        "all 65536 digraphs on 4 labelled nodes (self-loops included) x all 15 non-empty requested subsets for topological_sort_types, x all 16 isolated-node subsets for resolve_build_order, each x {} evaluations with freshly built hash collections; plus the same ordering oracle applied to CommandAnalyzer::topological_sort_types after a real analysis of a project rendered from the graph (all 512 graphs on 3 nodes and, quick: every 16th / thorough: every graph on 4 nodes, x all non-empty requested subsets); plus random graphs of 5..12 nodes (with multi-edges for the resolver); non-trivial = at least one edge between distinct nodes, distinct by (routine, graph, subset)",
         reps
     ));
     ctx.set_exhaustive(true);
@@ -278,6 +341,12 @@ pub fn run(ctx: &Ctx) {
             fails
         },
     );
+    // through the analyzer: all graphs on 3 nodes, and every 16th (quick) / every (thorough) graph on 4
+    let stride = ctx.tier.pick(16u32, 1u32);
+    let mut akeys: Vec<(usize, u32)> = (0..512u32).map(|b| (3usize, b)).collect();
+    akeys.extend((0..65536u32).filter(|b| b % stride == 7 % stride).map(|b| (4usize, b)));
+    ctx.note("analyzer_graphs", json!(akeys.len()));
+    ctx.enumerate("c20.analyzer", &akeys, |(n, bits)| json!({"n": n, "bits": bits}), |(n, bits), stats| check_analyzer(&graph_of(*n, *bits), stats));
     let cases = ctx.tier.pick(5000, 200000);
     ctx.search("c20.random", cases, 200, |tape, stats| {
         let (g, req, iso) = random_graph(tape);
@@ -309,6 +378,7 @@ pub fn replay(check: &str, input: &Value, stats: &mut Stats) -> Option<Vec<Failu
             }
             Some(fails)
         }
+        "c20.analyzer" => Some(check_analyzer(&graph_of(input["n"].as_u64()? as usize, input["bits"].as_u64()? as u32), stats)),
         "c20.random" => {
             let mut fails = vec![];
             for _ in 0..64 {
